@@ -1,12 +1,15 @@
 mod appender;
+mod core_sim;
 mod driver;
 mod fw;
+mod rec;
+mod sites;
 
 use fw::{Engine, GenCtx};
 use serde_json::Value;
 use std::io::Read;
 
-static ENGINES: &[&(dyn Engine)] = &[&appender::AppenderEngine];
+static ENGINES: &[&(dyn Engine)] = &[&appender::AppenderEngine, &core_sim::CoreEngine];
 
 fn engine_for_prop(prop: &str) -> Option<&'static dyn Engine> {
     ENGINES.iter().copied().find(|e| e.props().contains(&prop))
@@ -18,7 +21,10 @@ fn engine_by_name(name: &str) -> Option<&'static dyn Engine> {
 /// (quick runs, thorough runs) per property — calibrated so quick is ~30-60 s on 16 cores
 fn budget(prop: &str) -> (u64, u64) {
     match prop {
-        "C15" => (60_000, 1_500_000),
+        "C15" => (100_000, 2_000_000),
+        "C01" => (150_000, 3_000_000),
+        "C02" => (150_000, 3_000_000),
+        "C04" => (150_000, 3_000_000),
         _ => (40_000, 1_000_000),
     }
 }
